@@ -93,6 +93,12 @@ func c18Judge(text, setter string) (string, string) {
 			if err = m.SetBody("an earlier body of this message, longer than most of the texts\r\nsecond line é\r\n"); err == nil {
 				err = m.SetBody(text)
 			}
+		case "SetBody-Body-SetBody": // ... and that earlier body had been read back (listed, rendered) in between
+			if err = m.SetBody("an earlier body of this message, longer than most of the texts\r\nsecond line é\r\n"); err == nil {
+				_, _ = m.Body()
+				_ = m.String()
+				err = m.SetBody(text)
+			}
 		default:
 			err = m.SetBodyWithCharset(strings.TrimPrefix(setter, "SetBodyWithCharset:"), text)
 		}
@@ -263,7 +269,7 @@ func C18(args []string) {
 		}
 	}
 	rec(nil, 0)
-	setters := []string{"SetBody", "SetBodyWithCharset:utf-8", "SetBodyWithCharset:ISO-8859-1", "SetBody-after-SetBody"}
+	setters := []string{"SetBody", "SetBodyWithCharset:utf-8", "SetBodyWithCharset:ISO-8859-1", "SetBody-after-SetBody", "SetBody-Body-SetBody"}
 	core.ParallelFor(len(seqs), func(i int) {
 		text, names := build(seqs[i])
 		for si, st := range setters {
